@@ -13,64 +13,34 @@ CLAIMS = {
          'for every operand value, flag state, mode, architecture version; frame of dp_sem proved once.',
          'Scope: execute() of the opcode classes with condition passed (C05 covers the failing case) and field ranges as '
          'produced by decode; ADR, MOVT and the decode of operands (C06/C07) are not in these theorems.'),
- 'C02': ('seven representative classes (LDR immediate ARM/Thumb, LDR register ARM, LDRB immediate, LDRSH immediate, STR immediate, '
-         'STRB register) proved equal to the architecture pseudocode with MemU instantiated by the emulator (C13/C14): address for '
-         'offset/pre/post-indexed forms modulo 2^32, width, destination value (incl. legacy rotation, sign extension), base '
-         'write-back only after a successful access, loads to the PC through LoadWritePC; memory hypotheses discharged on flat maps.',
-         'Partial: the remaining ~50 load/store classes (literal, halfword/byte variants, doubleword, unprivileged, exclusive) are '
-         'covered by the regenerated model and the whole-step correspondence only; ThumbEE null checks are excluded (state <> ThumbEE).'),
- 'C03': ('LDM and STM (increment after, the forms every other block transfer is a variant of) proved equal to the architectural '
-         'loops by induction over the register list, for every register mask, base, W bit and state: lowest register at the lowest '
-         'address, consecutive words modulo 2^32, PC last, base write-back by 4*BitCount(registers) only after all accesses '
-         'succeeded, UNKNOWN stored for a written-back base that is not lowest; the invariant they need is shown to hold on flat maps.',
-         'Partial: DA/DB/IB forms, PUSH/POP, the user-bank and exception-return forms, SRS/RFE and the PUSH;POP round trip are '
-         'covered by the regenerated model and correspondence only.'),
- 'C04': ('execute() of B, BL/BLX (immediate), BLX (register), BX, CBZ/CBNZ and the four PC-write primitives (BranchWritePC, BXWritePC, '
-         'ALUWritePC, LoadWritePC) proved equal to the architectural operations for every state, offset, register and PC (incl. wrap '
-         'at 2^32); the offset assembled by every branch encoding (A1, A2, T1-T4, BL/BLX T1/T2) proved to be the sign-extended field '
-         'for every instruction word; PC read value and sequential advance; alignment and link-value consequences.',
-         'Partial: TBB/TBH (needs the memory model, C13), loads/ALU writes to PC of the load/store classes (C02/C03) and the '
-         'whole-step statement "non-branch instructions advance the PC by their length" (composition over every class) are not yet '
-         'theorems. Known finding: CBZ offset scaled by 4 (pinned by the test-suite).'),
- 'C05': ('CurrentCond and the 16x16 ConditionPassed table proved for every machine state; every conditional opcode class '
-         '(266 of 273, enumerated from the regenerated dispatcher) proved a no-op when its condition fails.',
-         'Partial: the whole-step statement (only PC/IT/scratch change) is not yet a theorem; "behaves as the unconditional '
-         'instruction when it passes" is proved as transparency of the guard.'),
- 'C06': ('ARM class selection proved for all 2^32 words at the top level (A5.1 routing) and, on their whole architectural domains, '
-         'for the groups multiply (A5.2.5, incl. UNDEFINED slots), load/store word and unsigned byte (A5.3, incl. PUSH/POP single, '
-         'literal and unprivileged forms), branch/block transfer (A5.5) and data-processing immediate (A5.2.3), by a reflective '
-         'cube checker proved sound once (Proofs/Cube.v) against hand-written tables; decode is a function of the word alone by type.',
-         'Partial: the other ARM groups (data-processing register/register-shifted, miscellaneous, halfword multiply, extra '
-         'load/store, synchronization, media, coprocessor/SVC, unconditional) and operand extraction are covered by the regenerated '
-         'model and whole-step correspondence only (branch operands: C04).'),
- 'C07': ('Thumb 16-bit class selection proved for every one of the 2^16 halfwords against the hand-written A6.2 table by '
-         'evaluation inside Coq (bound in the statement).',
-         'Partial: 32-bit Thumb class selection, operand extraction and the IT-dependent parts are covered by the regenerated '
-         'model and correspondence only (branch operands: C04).'),
+ 'C02': ('seven representative classes (LDR immediate ARM/Thumb, LDR register ARM, LDRB immediate, LDRSH immediate, STR immediate, STRB register) proved equal to the architecture pseudocode with MemU instantiated by the emulator (C13/C14): address for offset/pre/post-indexed forms modulo 2^32, width, destination value (incl. legacy rotation, sign extension), base write-back only after a successful access, loads to the PC through LoadWritePC; memory hypotheses discharged on flat maps.',
+         'Partial: 24 further classes (byte/halfword/signed/register/Thumb forms, the unprivileged LDRT/STRT family, UNKNOWN stores) are compared three-way against the same parametric specification without theorems; doubleword, exclusive and literal forms are covered by the regenerated model and the whole-step correspondence only; operand extraction of the encodings is checked under C06/C07.'),
+ 'C03': ('LDM and STM (increment after) proved equal to the architectural loops by induction over the register list, for every register mask, base, W bit and state: lowest register at the lowest address, consecutive words modulo 2^32, PC last, base write-back by 4*BitCount(registers) only after all accesses succeeded, UNKNOWN stored for a written-back base that is not lowest; the invariant they need is shown to hold on flat maps.',
+         'Partial: the rest of the family (DA/DB/IB, Thumb LDM, PUSH/POP, user-register and exception-return forms, SRS, RFE) has executable specifications (Spec/BlockFamily.v) compared three-way incl. transfers that abort part-way under the MPU, without theorems; the PUSH;POP round trip is not stated separately.'),
+ 'C04': ('execute() of B, BL/BLX (immediate), BLX (register), BX, CBZ/CBNZ and the four PC-write primitives proved equal to the architectural operations for every state, offset, register and PC (incl. wrap at 2^32); the offset assembled by every branch encoding proved to be the sign-extended field for every instruction word; PC read value and sequential advance; alignment and link-value consequences.',
+         'Partial: TBB/TBH has an executable specification compared by correspondence (no theorem); loads/ALU writes to PC belong to C01-C03; the whole-step statement "non-branch instructions advance the PC by their length" is searched (C05 step search), not proved. Known finding: CBZ offset scaled by 4 (pinned by the test-suite).'),
+ 'C05': ('CurrentCond and the 16x16 ConditionPassed table proved for every machine state; every conditional opcode class (266 of 273, enumerated from the regenerated dispatcher) proved a no-op when its condition fails.',
+         'Partial: the whole-step statement (a failing condition leaves everything but the PC and the IT state unchanged) is searched over members of 600 of the 602 encoding classes, not proved; "behaves as the unconditional instruction when it passes" is proved as transparency of the guard.'),
+ 'C06': ("ARM class selection proved, for every word of each group's architectural domain, against hand-written A5 tables by a reflective cube checker proved sound once: top-level routing and 21 groups (data-processing register / register-shifted register / immediate, multiply, halfword multiply, saturating, synchronization, miscellaneous, MSR-and-hints, extra load/store (+unprivileged), load/store word/byte, branch/block transfer, media routing, parallel signed/unsigned, packing, signed multiply/divide, coprocessor/SVC, unconditional, dp-and-miscellaneous routing); decode is a function of the word alone by type.",
+         'Partial: the memory-hints/Advanced-SIMD sub-decoder and the LDRSBT/LDRSHT routing cube are outside the theorems; operand extraction (register numbers, immediates, shifts, P/U/W, lists) is a table-driven three-way correspondence over 190 ARM encodings, not a theorem.'),
+ 'C07': ('Thumb 16-bit class selection proved for every one of the 2^16 halfwords (evaluation inside Coq); Thumb 32-bit class selection proved for every one of the 2^32 words: top-level routing and 18 groups (shifted register + move/shift, modified immediate, plain binary immediate, load/store multiple, dual/exclusive/table branch, store single, load byte/halfword/word, data-processing register, parallel signed/unsigned, miscellaneous operations, multiply, long multiply, branches and miscellaneous control + CPS/hints + miscellaneous control).',
+         'Partial: the Thumb-32 coprocessor group and the load-halfword hint slots (Rt = 1111) are outside the theorems; operand extraction is a table-driven three-way correspondence over 240 Thumb encodings (incl. !InITBlock() flags and valid SP/PC operands), not a theorem; branch operands are C04.'),
  'C08': ('it_advance = ITAdvance on every state; the ITSTATE schedule for every legal (firstcond, mask) and all 256 states '
          'by exhaustive evaluation inside Coq (bound stated).',
          'Partial: per-step advance inside execute_instruction, flag-setting of 16-bit encodings in IT blocks and the '
          'exception-entry/return handling of IT bits are not yet theorems.'),
- 'C09': ('representative classes proved bit-exact for every operand value and state: MUL (N/Z from the truncated result), QADD '
-         '(saturation and the sticky Q flag), UBFX, CLZ, SEL (GE-driven byte select); BFI proved to do exactly what the code does and '
-         'shown not to be the architectural BFI (recorded finding). The helper arithmetic they share (SignedSatQ, AddWithCarry, '
-         'bit fields, sign extension) is C17.',
-         'Partial: the other ~85 classes (long/halfword/dual multiplies, divide, parallel add/subtract, saturations, extends, '
-         'reversals) are covered by the regenerated model and the whole-step correspondence only.'),
- 'C10': ('the bank table (LookUpRName = architectural banks) for every configuration/register/mode, aliasing iff same '
-         'architectural register, read-after-write, histories of writes by induction, current-mode access, PC read value, '
-         'SPSR banking.',
-         'Partial: the 32-bit range invariant over instruction execution is not yet a theorem.'),
+ 'C09': ('representative classes proved bit-exact for every operand value and state: MUL, QADD, UBFX, CLZ, SEL; BFI proved to do exactly what the code does and shown not to be the architectural BFI (recorded finding). The helper arithmetic they share (SignedSatQ, AddWithCarry, bit fields, sign extension) is C17.',
+         'Partial: the other 87 classes (long/halfword/dual/most-significant multiplies, divide, all 36 parallel add/subtract forms, saturations, extends, pack, reversals, bit fields) have executable specifications (Spec/Arith2.v) compared three-way on lane-boundary operands, without theorems.'),
+ 'C10': ('the bank table (LookUpRName = architectural banks) for every configuration/register/mode, aliasing iff same architectural register, read-after-write, histories of writes by induction, current-mode access, PC read value, SPSR banking.',
+         'Partial: the 32-bit range invariant over instruction execution is searched (whole steps of members of 600 encoding classes from overflow-corner states), not proved.'),
  'C11': ('each of TakeReset, TakeUndefInstr, TakeSVC, TakeSMC, TakeHypTrap, TakeDataAbort, TakePhysicalIRQ, TakePhysicalFIQ '
          'and EnterHypMode/EnterMonitorMode/ExcVectorBase proved equal, as a state transformer, to the architecture pseudocode '
          '(Spec/Exceptions.v) for every state, configuration, routing bit and PC.',
          'Partial: the dispatch of raised exceptions inside emulate_cycle and the HSR syndrome (write_hsr) are covered by the '
          'whole-step correspondence only, not yet by theorems; IsExternalAbort/IsAsyncAbort/DebugException are constant false '
          'in the emulator and so in the statement.'),
- 'C12': ('cpsr_write_by_instr = CPSRWriteByInstr for every value/mask/flag/configuration/state; consequences proved on '
-         'the spec: unprivileged code cannot alter A/I/F/M, T/J/IT only on exception return, no illegal mode installed, '
-         'NMFI, SCR.AW/FW.',
-         'Partial: SPSR writes, the return instructions, hints and coprocessor gating are not yet theorems.'),
+ 'C12': ('cpsr_write_by_instr = CPSRWriteByInstr for every value/mask/flag/configuration/state; consequences proved on the spec: unprivileged code cannot alter A/I/F/M, T/J/IT only on exception return, no illegal mode installed, NMFI, SCR.AW/FW; coproc_accepted proved to be the NSACR/CPACR decision (UNDEFINED when denied).',
+         'Partial: exception return (SUBS PC,LR ARM/Thumb; LDM^ and RFE under C03) has executable specifications compared three-way without theorems; SPSR writes by MSR and the hint instructions are covered by the regenerated model and whole-step correspondence only.'),
  'C13': ('MemA read/write proved for every address/size/value/configuration and every translation outcome (bytes at the '
          'translated address, little-endian or byte-reversed by CPSR.E; alignment policy by version and SCTLR.A/U incl. legacy '
          'align-down; alignment fault with DFSR/DFAR and no transfer); MemU proved to choose aligned access / alignment fault / '
@@ -87,15 +57,8 @@ CLAIMS = {
          'Partial: "the faulting instruction performs no base-register write-back" and the abort position inside multi-word '
          'transfers belong to the load/store instruction theorems (C02/C03); LR_abt/SPSR_abt are the C11 entry theorems composed by '
          'C11_dispatch.'),
- 'C15': ('TranslateAddressV for the short-descriptor format (stage 1, not Hyp mode) proved equal to an independent specification for '
-         'every table content, TTBCR.N/PD0/PD1, TTBR0/1, DACR, SCTLR.{M,AFE,EE}, FCSE PID, PRRR/NMRR, virtual address, direction, '
-         'privilege and alignment: TTBR selection, first/second-level descriptor addresses, sections, supersections (40-bit), large '
-         'and small pages, the physical address, AP/XN/PXN/nG/NS/domain/level, memory attributes by TEX remap; translation, access-flag, '
-         'domain, permission and alignment faults with DFAR = MVA and DFSR (WnR, FS with level, domain where valid) and nothing else '
-         'changed; the MMU-off flat map; FCSE.',
-         'Partial: the long-descriptor (LPAE) walk, Hyp mode and stage 2 (virtualization), hardware access-flag update (SCTLR.HA=1) '
-         'and SCTLR.TRE=0 are not covered by theorems (regenerated model and correspondence only; TRE=0 is a known finding: the '
-         'emulator reaches a NotImplementedError stub).'),
+ 'C15': ('TranslateAddressV for the short-descriptor format (stage 1, not Hyp mode) proved equal to an independent specification for every table content, TTBCR.N/PD0/PD1, TTBR0/1, DACR, SCTLR.{M,AFE,EE}, FCSE PID, PRRR/NMRR, virtual address, direction, privilege and alignment: TTBR selection, descriptor addresses, sections, supersections (40-bit), large and small pages, AP/XN/PXN/nG/NS/domain/level, memory attributes by TEX remap; translation, access-flag, domain, permission and alignment faults with DFAR = MVA and DFSR and nothing else changed; the MMU-off flat map; FCSE.',
+         'Partial: the long-descriptor (LPAE) stage-1 walk has an executable specification (region selection, three levels, table attributes, access flag, AP) compared with the implementation only (py2v cannot translate that function, so it is absent from the model); its faults are a known finding (NotImplementedError stub), as is SCTLR.TRE=0; Hyp mode, stage 2 and hardware access-flag update are not covered.'),
  'C16': ('lookup, read, write, error cases, histories (induction over operation lists), shape invariant, byte frame and '
          'store/load proved for every device list, address, size and value.',
          'Device payloads are RAM only; bytearray/struct semantics are the Lib/Machine.v model.'),
@@ -105,18 +68,11 @@ CLAIMS = {
          'lowest_set_bit_ref and is_ones are covered by correspondence only; domain of negative shift/width arguments '
          'is outside the model (DESIGN 1.2).'),
 
- 'C18': ('decode is total: for every instruction word and state, decode_instruction (ARM, Thumb 16 and 32 bit, every sub-decoder) '
-         'returns a class, None, UNDEFINED or the documented not-implemented outcome and leaves the state unchanged, never a host '
-         'error; with C11_dispatch an UNDEFINED outcome becomes the architectural exception.',
-         'Partial: totality of from_bitarray and of the ~270 execute() bodies is not a theorem; it is searched by whole-step runs '
-         'over sampled words (all 2^16 Thumb halfwords in the thorough tier), which found and led to the repair of four crashes.'),
+ 'C18': ('decode is total: for every instruction word and state, decode_instruction (ARM, Thumb 16 and 32 bit, every sub-decoder) returns a class, None, UNDEFINED or the documented not-implemented outcome and leaves the state unchanged, never a host error; with C11_dispatch an UNDEFINED outcome becomes the architectural exception.',
+         'Partial: totality of from_bitarray and of the ~270 execute() bodies is not a theorem; it is searched by whole-step runs over members of 600 of the 602 encoding classes with SP/LR/PC operand corners (all 2^16 Thumb halfwords in the thorough tier), which found and led to the repair of five crashes.'),
 
- 'C19': ('proved for every value/mask/state: a PSR write executed in User mode leaves the mode, A/I/F, every other system '
-         'register, the general and MPU registers and memory unchanged; an SVC from User mode enters Supervisor mode with '
-         'SPSR_svc.M = User; the unprivileged load/store primitives access memory with User permissions whatever the mode '
-         '(the AP check itself is C14).',
-         'Partial: that no instruction word at all lets User mode change privileged state is not a theorem (it would need every '
-         'execute() body); it is searched by whole steps from User mode over sampled words with a confinement predicate.'),
+ 'C19': ('proved for every value/mask/state: a PSR write executed in User mode leaves the mode, A/I/F, every other system register, the general and MPU registers and memory unchanged; an SVC from User mode enters Supervisor mode with SPSR_svc.M = User; the unprivileged load/store primitives access memory with User permissions whatever the mode (the AP check itself is C14).',
+         'Partial: that no instruction word at all lets User mode change privileged state is not a theorem; it is searched by whole steps from User mode over members of 600 encoding classes (ARM and Thumb SRS to every mode included) with a confinement predicate.'),
  'C20': ('isolation proved for the regenerated model: under every interleaving of the steps of any number of instances each '
          'instance reaches exactly the state it reaches alone (determinism is by construction: a step is a function of the '
          'instance configuration and state); the implementation is compared with that model and with its own solo runs on '
